@@ -495,7 +495,7 @@ fn c10_refused(r: &mut Rng) -> (Vec<u8>, usize) {
 // generators
 
 pub fn rand_name(r: &mut Rng) -> Vec<u8> {
-    let pool: [&[u8]; 12] = [b"a", b"b.txt", b"dir/", b"dir/c", b"", b"x\\y", b"../up", b"/abs", b"a\0b", b"name with space", b"UPPER", b"a"];
+    let pool: [&[u8]; 14] = [b"a", b"b.txt", b"dir/", b"dir/c", b"", b"x\\y", b"../up", b"/abs", b"a\0b", b"name with space", b"UPPER", b"a", b"caf\xc3\xa9.txt", b"\x81ber.txt"];
     if r.chance(3, 4) {
         pool[r.below(pool.len() as u64) as usize].to_vec()
     } else {
@@ -852,6 +852,11 @@ impl Stream for ReadStream {
             if r.chance(1, 3) { e.flags |= 1; }
             if r.chance(1, 2) { e.method = 99; }
             if inner != 0 && inner != 99 && inner != 1 && r.chance(1, 2) { e.data = compress(inner, &content); }
+            // an unencrypted entry that merely CARRIES an AES record is plaintext: its CRC-32 must be enforced by
+            // both readers whatever the record says (AE-2 exempts only entries that really are AES-encrypted)
+            if e.flags & 1 == 0 && r.chance(1, 2) {
+                if r.chance(1, 2) || e.data.is_empty() { e.crc ^= 1 << r.below(32); } else { let p = r.below(e.data.len() as u64) as usize; e.data[p] ^= 1 << r.below(8); }
+            }
             let mut l = Layout::new(vec![e, Entry::stored(b"plain", b"second entry")]);
             if r.chance(1, 4) { l.entries.swap(0, 1); }
             let b = mkzip::build(&l);
@@ -1108,7 +1113,10 @@ impl Stream for ReadStream {
             let xs: Vec<&str> = x.split(':').collect();
             if xs.len() != 4 { continue; }
             let (name, m, crc, len) = (xs[0], xs[1], xs[2], xs[3]);
-            if !e.contains(&format!(" name={name} ")) {
+            // the producer's name BYTES are what `name_raw()` must return; the decoded `name()` equals them for
+            // ASCII names (non-ASCII unflagged names are decoded as CP437: C19's subject, checked by the text stream)
+            let ascii = name.as_bytes().chunks(2).all(|h| h[0] < b'8');
+            if !e.contains(&format!(" raw={name} ")) || (ascii && !e.contains(&format!(" name={name} "))) {
                 f.push(OracleFailure { what: format!("entry {i}: name differs from the producer's ({name})") });
             }
             if !e.contains(&format!(" m={m} ")) {
